@@ -86,16 +86,20 @@ func (m *mnode) store(st *Store, ls *ipld.LinkSystem) (cid.Cid, error) {
 		l     datamodel.Link
 	}
 	var links []enc
+	same := map[*mnode]cid.Cid{} // a child linked several times by one node is stored once
 	for i, lk := range m.Links {
 		var c cid.Cid
 		if lk.Missing || lk.Child == nil {
 			c = sumRaw([]byte(fmt.Sprintf("missing-%d-%d", i, len(m.Links))))
+		} else if known, ok := same[lk.Child]; ok {
+			c = known
 		} else {
 			var err error
 			c, err = lk.Child.store(st, ls)
 			if err != nil {
 				return cid.Undef, err
 			}
+			same[lk.Child] = c
 		}
 		links = append(links, enc{lk.Name, lk.Tsize, cidlink.Link{Cid: c}})
 	}
